@@ -87,11 +87,29 @@ func findContractFiles() ([]string, error) {
 const preludeSrc = `
 type verifInt int
 
+var verif_rangeidx int
+
 func verif_old[T any](x T) T { return x }
 func verif_implies(a, b bool) bool { return !a || b }
 func verif_iff(a, b bool) bool { return a == b }
-func verif_forall[F any](f F) bool { return true }
-func verif_exists[F any](f F) bool { return true }
+func verif_forall[F any](f F) bool { panic("verif: unbounded quantifier is not executable") }
+func verif_exists[F any](f F) bool { panic("verif: unbounded quantifier is not executable") }
+func verif_forallRange(lo, hi int, f func(int) bool) bool {
+	for i := lo; i < hi; i++ {
+		if !f(i) {
+			return false
+		}
+	}
+	return true
+}
+func verif_existsRange(lo, hi int, f func(int) bool) bool {
+	for i := lo; i < hi; i++ {
+		if f(i) {
+			return true
+		}
+	}
+	return false
+}
 func verif_Z[T ~int | ~int8 | ~int16 | ~int32 | ~int64 | ~uint | ~uint8 | ~uint16 | ~uint32 | ~uint64 | ~uintptr](x T) verifInt { return verifInt(x) }
 func verif_Is[T any](v any) bool { _, ok := v.(T); return ok }
 func verif_As[T any](v any) T { x, _ := v.(T); return x }
